@@ -16,7 +16,7 @@ from .common import *
 from . import sn_gen as G
 
 TYPE_OF = {'conv1': 'Conv2d', 'conv3': 'Conv2d', 'conv3nb': 'Conv2d', 'dw': 'Conv2d', 'relu': 'ReLU', 'id': 'Identity',
-           'maxpool': 'MaxPool2d', 'pool2': 'MaxPool2d', 'flatten': 'Flatten', 'linear': 'Linear'}
+           'maxpool': 'MaxPool2d', 'bn': 'BatchNorm2d', 'pool2': 'MaxPool2d', 'flatten': 'Flatten', 'linear': 'Linear'}
 
 
 def _br(kind, layers, fn=None):
@@ -88,11 +88,20 @@ def observe(args):
 
         def do_export():
             o['win_impl'] = [combs[b].best_layer_index() for b in range(len(combs))]
+            # bitwise fingerprint of every parameter / buffer of the SuperNet (BatchNorm statistics included) around export()
+            before = {k: v.clone() for k, v in sn.state_dict().items()}
+            if st.get('export_train'):
+                sn.train()
             try:
                 e = sn.export()
                 o['exc'] = None
             except Exception as ex_:  # noqa
+                e = None
                 o['exc'] = 'EXC:%s:%s' % (type(ex_).__name__, str(ex_)[:160])
+            sn.eval()
+            after = sn.state_dict()
+            o['sn_state_changed'] = sorted(k for k in set(before) | set(after) if k not in before or k not in after or not bool(torch.equal(before[k], after[k])))
+            if e is None:
                 return None, None
             ye = None
             # forward hooks on the user's own leaf modules (the export shares the instances): which layers does the export execute?
@@ -172,7 +181,8 @@ def settings_for(rng, d, quick):
     for win in combos:
         tie = rng.random() < 0.12
         alphas = [G.gen_alpha(rng, k, w, tie=tie) for k, w in zip(nbr, win)]
-        sts.append({'alphas': alphas, 'how': rng.choice(['update', 'attr']), 'temp': rng.choice([None, None, 0.05, 0.5, 5.0, 20.0])})
+        sts.append({'alphas': alphas, 'how': rng.choice(['update', 'attr']), 'temp': rng.choice([None, None, 0.05, 0.5, 5.0, 20.0]),
+                    'export_train': rng.random() < 0.35, 'export_first': rng.random() < 0.25})
     if rng.random() < 0.5:   # the initial uniform coefficients (all equal: winner 0)
         sts.append({'alphas': [[1.0 / k] * k for k in nbr], 'how': 'update', 'temp': None})
     return sts, small
@@ -190,7 +200,7 @@ def neartie_settings(rng, d):
         runner = 'later' if (temp is not None and j % 4 == 3) else 'earlier'
         alphas = [G.gen_alpha_neartie(rng, k, gap, runner if k >= 2 else 'earlier')[0] for k in nbr]
         sts.append({'alphas': alphas, 'how': 'ctor' if temp is None else rng.choice(['update', 'attr']), 'temp': temp,
-                    'temp_how': rng.choice(['update', 'attr']), 'export_first': (j % 2 == 0), 'neartie': {'gap': gap, 'runner': runner}})
+                    'temp_how': rng.choice(['update', 'attr']), 'export_first': (j % 2 == 0), 'export_train': (j % 3 == 0), 'neartie': {'gap': gap, 'runner': runner}})
     return sts
 
 
@@ -237,6 +247,9 @@ def check_obs(d, st, o, fails, tag):
         bad('exported-graph-has-losing-nodes' + suffix, 'the exported fx graph still calls modules of losing branches: %r' % sorted(set(n for n in graph_mods if n not in exp_names)))
     if o['has_combiner']:
         bad('combiner-left-in-export', 'a SuperNetCombiner is still in the exported module tree')
+    if o.get('sn_state_changed'):
+        bad('layers-touched-by-export' + (':export-in-train-mode' if st.get('export_train') else ''),
+            'parameters / buffers of the SuperNet changed by export(): %r' % o['sn_state_changed'][:8])
     if not o['params_untouched'] or not o['seed_untouched']:
         bad('layers-touched-by-export', 'parameters of the surviving / original layers changed by export')
 
@@ -253,6 +266,7 @@ def run(ctx):
                 'coefficients = distinct multiples of 1/16 with the wanted winner on top, 12% with a tie for the maximum, plus the uniform initial ones; hard selection set through '
                 'update_softmax_options(hard=True) or the hard_softmax attribute, temperatures {1,.05,.5,5,20}; ALL winner combinations when every block has <= 4 branches, otherwise '
                 'sampled combinations that always include winners 1, 10, 11 and every branch ending in a functional op; one case = (network, coefficients); '
+                'BatchNorm2d among the fixed layers and inside branches; export() called in eval and (35%) in train mode, before or after the hard forward, with a bitwise fingerprint of the whole SuperNet state_dict around it and the reference output taken before; '
                 'NEAR-TIE stream: networks built with hard_softmax=True, per block the unique raw maximum 1/2/4 float32 ulps or 1e-6 above an earlier- (or later-) indexed runner-up, temperatures {.05,1,20,100} through '
                 'update_softmax_options or the attribute (T=1 untouched after construction first), export before / after the forward pass; there the exported branch must be the raw arg-max (hard forward not compared); '
                 'non-trivial = some winner is not branch 0; distinct by (network, winners)')
@@ -306,6 +320,10 @@ def run(ctx):
                 ctx.dist['a LOSING branch has a functional op / method call before one of its layers'] += 1
             if any(br.get('ops') and br['ops'][-1] == ['f', 10] for b in range(len(nbr)) for br in d['blocks'][b]['branches']):
                 ctx.dist['a branch with a residual connection'] += 1
+            if st.get('export_train'):
+                ctx.dist['export() called in train mode'] += 1
+                if 'bn' in d['types']:
+                    ctx.dist['export() in train mode on a network with BatchNorm'] += 1
             if st.get('neartie'):
                 ctx.dist['near-tie gap %s, runner-up %s, T=%s' % (st['neartie']['gap'], st['neartie']['runner'], st.get('temp') or 1)] += 1
                 ctx.extra['near_tie_cases'] = ctx.extra.get('near_tie_cases', 0) + 1
